@@ -208,4 +208,13 @@ func main() {
 	for _, l := range [][]float64{{3}, {2, 1}, {5, -1, 4, 0.5, 2}} {
 		qeq("gen_SortedMid qsort "+ql(l), q(sem.SortedMid(l)))
 	}
+	for _, l := range [][]int{{}, {1, -2, 7, 3}, {-1, -1}, {7, 7, 5}} {
+		eq("gen_SumSkip "+zl(l), z(int64(sem.SumSkip(l))))
+	}
+	for _, p := range []struct {
+		xs  []int
+		lim int
+	}{{[]int{2, 4, 6}, 1}, {[]int{1, 2, 9, 11}, 5}, {[]int{3, 5}, 10}, {nil, 0}} {
+		eq(fmt.Sprintf("gen_FirstBig %s %s", zl(p.xs), z(int64(p.lim))), z(int64(sem.FirstBig(p.xs, p.lim))))
+	}
 }
